@@ -130,21 +130,44 @@ theorem C16_api_answers {ω : Type} (stp : α → ω → α) (ans : α → β) (
   rfl
 
 open EngineModel.Api in
+/-- The items of a schema-1.x crate history in the monitor's alphabet: a
+mutating call of `Api.CratesV1`, or the model's full observation (`n` read
+statements) for the crate handles `h`, track handles `t` and probe names `nm`. -/
+def cratesV1Op (s : Pure.Detect.Schema) :
+    CratesV1.Op ⊕ (Nat × List CratesV1.Id × List CratesV1.Id × List CratesV1.Name) → Op CratesV1.Db CratesV1.Obs
+  | .inl op => histOp (fun d op => (CratesV1.step s d op).1) (fun d => CratesV1.observe s d [] [] []) (.inl op)
+  | .inr (n, h, t, nm) => apiObserver n (fun d => CratesV1.observe s d h t nm)
+
+open EngineModel.Api in
 /-- Schema-1.x crates (`Api.CratesV1`, every version): the full observation —
 `crates`, `root_crates`, `tracks`, and per handle `is_valid`, `name`, `parent`,
 `children`, `descendants`, `tracks`, `crate_by_id`, `sub_crate_by_name`,
 `containing_crates`, `crates_by_name`, `root_crate_by_name` — interleaved
-anywhere in any history leaves the tables exactly as the history without it. -/
+anywhere, any number of times, in any history leaves the tables exactly as the
+history without it. -/
 theorem C16_crates_v1 (s : Pure.Detect.Schema)
-    (items : List (CratesV1.Op ⊕ (Nat × (CratesV1.Db → CratesV1.Obs)))) (db : CratesV1.Db)
-    (hobs : ∀ it ∈ items, ∀ n q, it = .inr (n, q) →
-      ∃ h t nm, q = fun d => CratesV1.observe s d h t nm) :
-    (run (Conn.idle db) (items.map (histOp (fun d op => (CratesV1.step s d op).1)
-        (fun d => CratesV1.observe s d [] [] [])))).1
+    (items : List (CratesV1.Op ⊕ (Nat × List CratesV1.Id × List CratesV1.Id × List CratesV1.Name)))
+    (db : CratesV1.Db) :
+    (run (Conn.idle db) (items.map (cratesV1Op s))).1
       = Conn.idle (CratesV1.run s db (items.filterMap Sum.getLeft?)) := by
-  have := hobs
-  rw [C16_api_history]
-  rfl
+  show _ = Conn.idle ((items.filterMap Sum.getLeft?).foldl (fun d op => (CratesV1.step s d op).1) db)
+  induction items generalizing db with
+  | nil => rfl
+  | cons it items ih =>
+    cases it with
+    | inl op =>
+      have h1 : (step (Conn.idle db) (cratesV1Op s (.inl op))).1 = Conn.idle (CratesV1.step s db op).1 := by
+        simp [step, cratesV1Op, histOp, exec, faultable, Cmd.kind, stepStmt, Conn.idle, Outcome.cons]
+      simp only [List.map_cons, run, List.filterMap_cons, Sum.getLeft?_inl, List.foldl_cons]
+      rw [h1]
+      exact ih _
+    | inr q =>
+      obtain ⟨n, h, t, nm⟩ := q
+      have h1 := C16_observers_pure (Conn.idle db) (cratesV1Op s (.inr (n, h, t, nm)))
+        (C16_api_observer n _)
+      simp only [List.map_cons, run, List.filterMap_cons, Sum.getLeft?_inr]
+      rw [h1]
+      exact ih _
 
 /-- Schema-2.x crates (`Db.V2`): any query of the model interleaved anywhere. -/
 theorem C16_crates_v2 {γ : Type} (items : List (Db.V2.Op ⊕ (Nat × (Db.V2.Db → γ)))) (ans : Db.V2.Db → γ) (db : Db.V2.Db) :
@@ -174,17 +197,7 @@ example : (step (Conn.idle 5) (⟨[.read, .write (fun n => some (n + 1))], fun n
 example : (run (Conn.idle 0) [(⟨[.read], id⟩ : Op Nat Nat), ⟨[.write (fun n => some (n + 1))], id⟩, ⟨[.read], id⟩]).2
     = [some 0, some 1, some 1] := by decide
 
-/-- concrete models: the observation of a 1.x crate history interleaved with its own mutating calls;
-the hypothesis of `C16_crates_v1` holds of such a list -/
-example : ∀ it ∈ ([.inl (.createRoot [65]), .inr (3, fun d => EngineModel.Api.CratesV1.observe .schema_1_18_0_os d [1] [] [[65]]),
-      .inl (.createSub 1 [66])] : List (EngineModel.Api.CratesV1.Op ⊕ (Nat × (EngineModel.Api.CratesV1.Db → EngineModel.Api.CratesV1.Obs)))),
-    ∀ n q, it = .inr (n, q) → ∃ h t nm, q = fun d => EngineModel.Api.CratesV1.observe .schema_1_18_0_os d h t nm := by
-  intro it hit n q hq
-  simp only [List.mem_cons, List.mem_nil_iff, or_false] at hit
-  rcases hit with rfl | rfl | rfl
-  · cases hq
-  · cases hq; exact ⟨[1], [], [[65]], rfl⟩
-  · cases hq
+/-- concrete models: a 1.x crate history with the full observation interleaved is not trivial -/
 example : (EngineModel.Api.CratesV1.run .schema_1_18_0_os EngineModel.Api.CratesV1.Db.empty
     [.createRoot [65], .createSub 1 [66]]).crate.length = 2 := by decide +kernel
 
